@@ -32,6 +32,8 @@ type Tokenizer struct {
 	mi         int
 	num        gen.Number
 	rn         rune
+	hi         rune // pending high surrogate of a \u escape
+	hiEnd      int  // len(tmp) right after that escape
 	mode       string
 	exkey      bool
 	quoteDelim byte
@@ -67,6 +69,7 @@ func (t *Tokenizer) Parse(buf []byte, handler oj.TokenHandler) (err error) {
 		t.starts = make([]byte, 0, 16)
 	} else {
 		t.tmp = t.tmp[:0]
+		t.hi = 0
 		t.starts = t.starts[:0]
 	}
 	t.noff = -1
@@ -100,6 +103,7 @@ func (t *Tokenizer) Load(r io.Reader, handler oj.TokenHandler) (err error) {
 		t.starts = make([]byte, 0, 16)
 	} else {
 		t.tmp = t.tmp[:0]
+		t.hi = 0
 		t.starts = t.starts[:0]
 	}
 	t.noff = -1
@@ -451,6 +455,7 @@ func (t *Tokenizer) tokenizeBuffer(buf []byte, last bool) {
 			}
 			off += i
 		case strQuote:
+			t.hi = 0
 			if b == t.quoteDelim {
 				t.addString(string(t.tmp))
 			} else {
@@ -500,8 +505,23 @@ func (t *Tokenizer) tokenizeBuffer(buf []byte, last bool) {
 				if len(t.runeBytes) < 6 {
 					t.runeBytes = make([]byte, 6)
 				}
-				n := utf8.EncodeRune(t.runeBytes, t.rn)
+				rn := t.rn
+				switch {
+				case 0xDC00 <= rn && rn <= 0xDFFF && t.hi != 0 && t.hiEnd == len(t.tmp):
+					// The low half of a surrogate pair directly after the high
+					// half. Together they are one code point so take back the
+					// replacement character written for the high half.
+					t.tmp = t.tmp[:len(t.tmp)-3]
+					rn = 0x10000 + (t.hi-0xD800)<<10 + (rn - 0xDC00)
+					t.hi = 0
+				case 0xD800 <= rn && rn <= 0xDBFF:
+					t.hi = rn
+				default:
+					t.hi = 0
+				}
+				n := utf8.EncodeRune(t.runeBytes, rn)
 				t.tmp = append(t.tmp, t.runeBytes[:n]...)
+				t.hiEnd = len(t.tmp)
 				t.mode = stringMap
 			}
 			continue
